@@ -78,6 +78,12 @@ class DefaultHandler(BaseHandler):
             # store the message sequence
             self.msg_sequence[peer_addr] = last_msg_seq + 1
             msg_file = open(os.path.join(msg_path, msg_file_name), 'a')
+            if msg_file.tell():
+                with open(os.path.join(msg_path, msg_file_name), 'rb') as fh:
+                    fh.seek(-1, os.SEEK_END)
+                    if fh.read(1) != b'\n':
+                        # a crash tore the last record: do not append to its line
+                        msg_file.write('\n')
             msg_file.flush()
             self.peer_files[peer_addr] = (msg_path, msg_file)
             LOG.info('BGP message file %s', msg_file_name)
